@@ -52,22 +52,24 @@ type Split struct {
 }
 
 type Contract struct {
-	Key      string
-	Params   []string // explicit parameter names (extern contracts)
-	Requires []Clause
-	Ensures  []Clause
-	Modifies []Clause
-	ModAll   bool
-	Loops    map[int]*LoopSpec
-	Flags    map[string]bool
-	Splits   []*Split
-	Asserts  map[string][]Clause // "at <label>" assertions
-	Lemmas   []string            // axioms names to use (empty = all)
-	Mutates  []string            // abstract-valued parameters (usually the receiver) updated in place
-	Iter     *IterSpec           // the callee calls a callback over a ghost sequence
-	Assumed  bool                // extern (trusted) contract
-	File     string
-	Line     int
+	Key          string
+	Params       []string // explicit parameter names (extern contracts)
+	Requires     []Clause
+	Ensures      []Clause
+	Modifies     []Clause
+	ModAll       bool
+	Loops        map[int]*LoopSpec
+	Flags        map[string]bool
+	Splits       []*Split
+	Asserts      map[string][]Clause // "at <label>" assertions
+	Lemmas       []string            // axioms names to use (empty = all)
+	Mutates      []string            // abstract-valued parameters (usually the receiver) updated in place
+	Iter         *IterSpec           // the callee calls a callback over a ghost sequence
+	Gates        []Gate              // extra conditions asserted at every call of a command handler
+	HavocRegions []string            // (lock acquisition) regions of shared state other threads may have changed
+	Assumed      bool                // extern (trusted) contract
+	File         string
+	Line         int
 }
 
 // IterSpec: `iterates <param> seq <S> args <a1>, <a2> ...` — the callee invokes <param>(a1, a2, ...) for it = S[0], S[1], ...
@@ -80,6 +82,14 @@ type IterSpec struct {
 	Pos   *Clause // callee side: expression (over the function's locals) giving the index in S of the element being passed
 	Guard *Clause // the iteration contract holds only when this condition on the parameters holds (else only `Only`)
 	Only  *Clause // `invokes <param> only <cond on it>`: every invocation's first argument satisfies cond (always)
+}
+
+// Gate: `gate NAME: COND except cmdA, cmdB` — in the function carrying it, COND is asserted at every call of a
+// command handler (cmdXxx(msg ...)) other than the excepted ones.
+type Gate struct {
+	Name   string
+	Cond   Clause
+	Except map[string]bool
 }
 
 type GhostVar struct {
@@ -674,6 +684,35 @@ func (sp *Specs) loadSpecFile(path, pkgPrefix string, assumed bool) error {
 				cur.Iter = &IterSpec{Param: strings.TrimSpace(rest[:io])}
 			}
 			cur.Iter.Only = &oc
+		case "gate":
+			if cur == nil {
+				return fmt.Errorf("%s:%d: clause outside func", path, l.ln)
+			}
+			i := strings.Index(rest, ":")
+			if i < 0 {
+				return fmt.Errorf("%s:%d: gate NAME: COND [except a, b]", path, l.ln)
+			}
+			g := Gate{Name: strings.TrimSpace(rest[:i]), Except: map[string]bool{}}
+			body := rest[i+1:]
+			if j := strings.Index(body, " except "); j >= 0 {
+				for _, e := range strings.Split(body[j+8:], ",") {
+					g.Except[strings.TrimSpace(e)] = true
+				}
+				body = body[:j]
+			}
+			cl, err := mkClause(strings.TrimSpace(body), l.ln)
+			if err != nil {
+				return err
+			}
+			g.Cond = cl
+			cur.Gates = append(cur.Gates, g)
+		case "havocs":
+			if cur == nil {
+				return fmt.Errorf("%s:%d: clause outside func", path, l.ln)
+			}
+			for _, r := range strings.Split(rest, ",") {
+				cur.HavocRegions = append(cur.HavocRegions, strings.TrimSpace(r))
+			}
 		case "mutates":
 			if cur == nil {
 				return fmt.Errorf("%s:%d: clause outside func", path, l.ln)
